@@ -30,7 +30,7 @@ import (
 	"github.com/openbao/openbao/v2/internal/builtin/logical/kv"
 )
 
-var c14Ops = []string{"putcas1", "put", "patch", "read", "read1", "del", "delv1", "undelv1", "destroyv1", "metamax1", "metacas"}
+var c14Ops = []string{"putcas1", "put", "patch", "read", "read1", "del", "delv1", "undelv1", "destroyv1", "metamax1", "metacas", "metadel"}
 
 func c14Image(t *testing.T, nonTxn bool) *Image {
 	s := Build(t, Options{NonTxn: nonTxn, Extra: map[string]logical.Factory{"kv": kv.Factory}})
@@ -143,6 +143,9 @@ func c14Do(s *Sys, op string, i int) string {
 		return writeObs(s.Req(tok, logical.UpdateOperation, "kv2/destroy/s", map[string]interface{}{"versions": []int{1}}))
 	case "metamax1":
 		return writeObs(s.Req(tok, logical.UpdateOperation, "kv2/metadata/s", map[string]interface{}{"max_versions": 1}))
+	case "metadel":
+		// removes the path with all its versions; a later write starts again at version 1
+		return writeObs(s.Req(tok, logical.DeleteOperation, "kv2/metadata/s", nil))
 	case "metamax2":
 		return writeObs(s.Req(tok, logical.UpdateOperation, "kv2/metadata/s", map[string]interface{}{"max_versions": 2}))
 	case "metacas":
